@@ -45,6 +45,7 @@ CURATED = [
     "Const(b'MZ')", "Default(Byte, 7)", "OneOf(Byte, [1, 2])",
     # transforms with multi-byte constant keys / amounts on data whose length is not a multiple of the key; regions that hold RawCopy / Tell
     "ProcessXor(b'\\x01\\xfe\\x10', GreedyBytes)", "ProcessXor(b'\\x01\\xfe', Bytes(3))", "Struct('h'/Byte, 'x'/Prefixed(Byte, ProcessXor(b'ab\\x00', GreedyBytes)))",
+    "NullTerminated(GreedyBytes, term=b'\\x00\\x00', require=False)", "Struct('s'/NullTerminated(GreedyBytes, term=b'\\xff\\xfe', require=False))", "FixedSized(5, NullTerminated(GreedyBytes, term=b'\\x00\\x00', require=False))",
     "FixedSized(6, RawCopy(Int16ub))", "Struct('h'/Bytes(3), 'f'/FixedSized(4, RawCopy(Struct('a'/Byte, 't'/Tell))))", "Prefixed(Byte, RawCopy(GreedyBytes))", "NullTerminated(RawCopy(GreedyBytes))",
     "Const(1, BytesInteger(this._params.get('w', 2)))" if False else "Struct('w'/Byte, 'c'/Const(1, BytesInteger((this.w & 1) + 1)))",
 ]
@@ -105,6 +106,9 @@ def instances(tier, seed):
         if not heavy or tier != "quick":
             out.append(dict(name="history  %s" % s, params=dict(kind="history", source=s, n=nn if cur else min(nn, 3) if not sizes.get(s) else nn)))
         out.append(dict(name="entry points  %s" % s, params=dict(kind="entry", source=s, n=max(nn, 6) if (cur or sizes.get(s)) and not heavy else nn)))
+        if cur and "NullTerminated" in s and not sizes.get(s):
+            # an odd number of bytes as well: multi-byte terminators read unit by unit, and a trailing partial unit is dropped
+            out.append(dict(name="entry points, 5 bytes  %s" % s, params=dict(kind="entry", source=s, n=5)))
     for a, b in PAIRS:
         for order in (0, 1):
             x, y = (a, b) if order == 0 else (b, a)
